@@ -192,6 +192,10 @@ def sibling_mismatch(doc):
             for k in ('fractions', 'grain sizes', 'normalize grain sizes', 'deflections', 'rotation matrices', 'Euler angles z-x-z', 'top fractions', 'bottom fractions', 'center fractions', 'side fractions'):
                 if isinstance(o.get(k), list) and len(o[k]) != n and n > 0:
                     found.append((m, {'compositions': n, k: len(o[k])}))
+            if m == 'random':
+                for k in ('min value', 'max value'):       # one shared value or one per composition
+                    if isinstance(o.get(k), list) and len(o[k]) not in (1, n) and n > 0:
+                        found.append((m, {'compositions': n, k: len(o[k])}))
 
     def models_of(o):
         for k, v in o.items():
@@ -216,6 +220,58 @@ def sibling_mismatch(doc):
                 if isinstance(sgm, dict):
                     models_of(sgm)
     return found[0] if found else None
+
+
+SIBLINGS_EXACT = ('fractions', 'grain sizes', 'normalize grain sizes', 'deflections', 'rotation matrices', 'Euler angles z-x-z', 'top fractions', 'bottom fractions',
+                  'center fractions', 'side fractions')
+SIBLINGS_ONE_OR_N = ('min value', 'max value')
+
+
+def mutate_sibling(rng, doc):
+    """change the length of one list that must match its sibling lists (models of area features and plumes, the plume's own lists, the
+    gaussian lists) -> (mutated doc, class) or (None, None)"""
+    d = copy.deepcopy(doc)
+    cands = []
+    for f in d.get('features', []):
+        ft = f.get('model')
+        if ft == 'plume':
+            for k in ('cross section depths', 'semi-major axis', 'eccentricity', 'rotation angles'):
+                if isinstance(f.get(k), list) and len(f[k]) >= 2:
+                    cands.append((f, k, 'plume', None))
+        if ft not in ('continental plate', 'oceanic plate', 'mantle layer', 'plume'):
+            continue
+        for kk, v in f.items():
+            if kk.endswith(' models') and isinstance(v, list):
+                for mo in v:
+                    if not isinstance(mo, dict):
+                        continue
+                    if mo.get('model') == 'gaussian':
+                        for k in ('depths', 'centerline temperatures', 'gaussian sigmas'):
+                            if isinstance(mo.get(k), list) and len(mo[k]) >= 2:
+                                cands.append((mo, k, 'gaussian', None))
+                    if isinstance(mo.get('compositions'), list) and mo['compositions']:
+                        n = len(mo['compositions'])
+                        for k in SIBLINGS_EXACT:
+                            if isinstance(mo.get(k), list) and len(mo[k]) == n:
+                                cands.append((mo, k, mo.get('model'), n))
+                        for k in SIBLINGS_ONE_OR_N:
+                            if isinstance(mo.get(k), list) and n >= 2:
+                                cands.append((mo, k, mo.get('model'), n))
+    if not cands:
+        return None, None
+    o, k, mname, n = rng.choice(cands)
+    lst = o[k]
+    if k in SIBLINGS_ONE_OR_N:
+        # neither one nor n entries
+        target = n + 1 if (n == 2 or rng.random() < 0.5) else rng.randint(2, n - 1)
+        while len(lst) < target:
+            lst.append(copy.deepcopy(lst[-1]))
+        del lst[target:]
+    elif rng.random() < 0.5 and len(lst) >= 2:
+        del lst[-1]
+    else:
+        lst.append(copy.deepcopy(lst[-1]))
+    return d, '%s:%s' % (mname, k)
 
 
 def huge_coordinates(doc):
@@ -350,7 +406,7 @@ def main(tier, seed, replay):
     V = core.Verdict(PID, tier, seed)
     V.coverage['rule'] = ('(b) documents generated from the JSON schema the built library itself emits, biased to the minimum the schema allows and to adversarial numbers (0, negatives, 1e+-300, NaN/Infinity literals) '
                           'and list lengths; (c) single-fault mutations of valid files that violate the published schema (unknown key, wrong primitive type, missing required key, bad enum/model name, wrong version) must throw; '
-                          '(d) formatting variants of valid files (whitespace, comments, key order) must answer bit-identically; every construction followed by a fixed battery of 13 queries; outcome must be '
+                          '(e) valid generated worlds with one list that must match its sibling lists (per-composition lists of every model, min/max value of the random composition, plume and gaussian lists) made one too short or too long must throw; (d) formatting variants of valid files (whitespace, comments, key order) must answer bit-identically; every construction followed by a fixed battery of 13 queries; outcome must be '
                           '"constructed" or std::exception with a message, never a sanitizer report, signal or hang; thorough: libFuzzer on raw bytes and valgrind memcheck replay; non-trivial = schema-valid documents '
                           'that reach the semantic code (constructed, or rejected by a semantic check)')
     quick = tier == 'quick'
@@ -401,6 +457,25 @@ def main(tier, seed, replay):
             qi.append((c.add('q3', 1, core.hx(x), core.hx(y), core.hx(z), core.hx(d), BATTERY_PROPS), c.add('q3', 2, core.hx(x), core.hx(y), core.hx(z), core.hx(d), BATTERY_PROPS)))
         cases.append(c)
         plan.append(('fmt', c, doc, 'f%d' % i, kind, qi))
+    # (e) valid worlds with one sibling list made too short or too long
+    n_sib = 300 if quick else 6000
+    for i in range(n_sib):
+        wrng = random.Random(rng.getrandbits(48))
+        wg.EXTRA['random_composition'] = 0.6
+        try:
+            base = wg.gen_world(wrng, {'nfeatures': (1, 3), 'types': ['continental plate', 'oceanic plate', 'mantle layer', 'plume'], 'random_models': wrng.random() < 0.5,
+                                       'p_grains': 0.7, 'p_composition': 0.9, 'ncomp': 4})['json']
+        finally:
+            wg.EXTRA['random_composition'] = 0.0
+        m, cls = mutate_sibling(wrng, base)
+        if m is None:
+            continue
+        fn = 's%d.wb' % i
+        c = core.Case('s%d' % i, files={fn: wg.dumps(m)})
+        c.add('world', 1, 1, 0, 0, '-', core.workfile(PID, fn))
+        idx = battery(c, 1, None)
+        cases.append(c)
+        plan.append(('sib', c, m, fn, cls, idx))
     core.run_cases('asan', cases, PID, per_case_timeout=30)
     # second opinion on the mutated documents: python jsonschema against the emitted schema (tooling interpreter); a mutation that
     # the published schema itself allows (e.g. an extra key where the schema has no additionalProperties:false) is not a violation
@@ -460,6 +535,18 @@ def main(tier, seed, replay):
                     V.nontrivial(fn)
             elif r0[0] == 'exx':
                 V.violation('construction-ends-with-a-non-standard-exception', {'file': fn, 'document': doc})
+        elif kind == 'sib':
+            _k, c, m, fn, cls, idx = item
+            V.count()
+            if c.crash:
+                at = c.crash['at']
+                V.violation('crash:%s:%s:%s' % ('construction' if at == 0 else 'query', c.crash['kind'], c.crash['frame']), {'file': fn, 'class': cls, 'sanitizer_log': c.crash.get('log', '')[:2500], 'document': m})
+                continue
+            if c.results[0][0] == 'ok':
+                V.violation('accepts:inconsistent-list-lengths:%s' % cls, {'file': fn, 'document': m})
+            else:
+                V.nontrivial(fn)
+                V.coverage['sibling_list_mutations_rejected'] = V.coverage.get('sibling_list_mutations_rejected', 0) + 1
         elif kind == 'mut':
             _k, c, m, fn, cls, _ = item
             V.count()
